@@ -33,6 +33,12 @@ FOCUS = {
          "it feeds, a renamed attribute kept alive through a property or alias that goes stale, a deprecation shim, a changed return "
          "convention (view vs copy, list vs tuple, float vs 0-d array) that downstream code of the package relies on, a more general "
          "signature implemented for the common case only, stricter or looser validation at one of several entry points.",
+    'i': "This time every change must misbehave only on BOUNDARY inputs or on ERROR PATHS that the property statement covers but the "
+         "tests never reach: one-component systems, the last pair of a 3- or 4-component system, a single-element or very short "
+         "array, chain length 1 or 2, equal or zero-valued parameters, a grid point exactly at contact, kT different from 1, an array "
+         "that is already in the other space, an empty or one-element key list, the first call versus later calls -- or a guard that "
+         "is moved after a side effect, an exception whose type changes, a refusal that becomes a silent acceptance (or the other way "
+         "round), a check that is skipped on one of several code paths. The common, well-tested path must keep working exactly.",
 }
 
 
